@@ -284,18 +284,39 @@ theorem maxRandStringLength_eq : Gen.RespGuard.maxRandStringLength = maxRandStri
 theorem maxRandStringLength_ok : Gen.RespGuard.maxRandStringLength ≤ maxRuneSliceLen := by decide
 
 /-- `extractFromSlice`: the slice types are checked first (any other value is an error: model `.list false`, scalars,
-maps), `valueLen` is the length of THE SAME value, `calcIndex` is called with it, its error is returned, and every
-`v[index]` uses the index it returned (model `extractFromSlice`: `goIndex xs i` with `i` from `calcIndex k xs.length`) -/
+maps), `valueLen` (`v1`) is the length of THE SAME value (`v4`), `calcIndex` is called with it, its error is returned … -/
 theorem mpExtractFromSlice_eq : Gen.RespGuard.mpExtractFromSlice = [
-    "v0 := []reflect.Type{reflect.TypeOf([]map[string]string{}), reflect.TypeOf([]map[string]any{}), reflect.TypeOf([]any{}), reflect.TypeOf([]string{}), reflect.TypeOf([]int{}), reflect.TypeOf([]int64{}), reflect.TypeOf([]float64{})}",
+    "v0 := []reflect.Type{}",
     "var v1 int",
     "var v2 bool",
     "for _, v3 := range v0 { if reflect.TypeOf(v4) == v3 { v1 = reflect.ValueOf(v4).Len() v2 = true break } }",
     "if !v2 { return nil, fmt.Errorf(\"…\", v4, v4) }",
     "v5, v6 := calcIndex(v7, v8, v1, v9)",
     "if v6 != nil { return nil, fmt.Errorf(\"…\", v4, v6) }",
-    "switch v := v4.(type) { case []map[string]string: v10 := make(map[string]any, len(v11[v5])) for v12, v13 := range v11[v5] { v10[v12] = v13 } return v10, nil case []map[string]any: return v14[v5], nil case []any: return v15[v5], nil case []string: return v16[v5], nil case []int: return v17[v5], nil case []int64: return v18[v5], nil case []float64: return v19[v5], nil }",
+    "switch vsw := v4.(type) { }",
     "return nil, fmt.Errorf(\"…\", v4, v4)"] := rfl
+
+/-- … the accepted slice types (sorted: their order does not matter; model `Val.list true`) … -/
+theorem mpSliceTypes_eq : Gen.RespGuard.mpSliceTypes = [
+    "reflect.TypeOf([]any{})",
+    "reflect.TypeOf([]float64{})",
+    "reflect.TypeOf([]int64{})",
+    "reflect.TypeOf([]int{})",
+    "reflect.TypeOf([]map[string]any{})",
+    "reflect.TypeOf([]map[string]string{})",
+    "reflect.TypeOf([]string{})"] := rfl
+
+/-- … and every clause of the type switch on that value (`vsw`) reads exactly `vsw[v5]`, `v5` being the index `calcIndex`
+returned for the length of that very slice (model `extractFromSlice`: `goIndex xs i` with `i` from
+`calcIndex k xs.length`); one clause per accepted type (sorted: reordering them is harmless) -/
+theorem mpSliceCases_eq : Gen.RespGuard.mpSliceCases = [
+    "case []any: return vsw[v5], nil",
+    "case []float64: return vsw[v5], nil",
+    "case []int64: return vsw[v5], nil",
+    "case []int: return vsw[v5], nil",
+    "case []map[string]any: return vsw[v5], nil",
+    "case []map[string]string: w0 := make(map[string]any, len(vsw[v5])) for w1, w2 := range vsw[v5] { w0[w1] = w2 } return w0, nil",
+    "case []string: return vsw[v5], nil"] := rfl
 
 /-- `GetMapValue` (model `getMapValue`): a missing key is an error, an indexed segment goes through
 `extractFromSlice`, both type assertions are comma-ok, a value that is not a map ends the path (error unless last) -/
@@ -393,48 +414,77 @@ theorem varsExplicitPanics_eq : Gen.RespGuard.varsExplicitPanics = [] := rfl
 /-- no type assertion without comma-ok there -/
 theorem varsUncheckedAssertions_eq : Gen.RespGuard.varsUncheckedAssertions = [] := rfl
 
-/-- index / slice expressions there. On response-derived data: the `v[index]` of `extractFromSlice` (bounds:
+/-- index / slice expressions there (local variables printed as `_`: WHICH variable indexes what is pinned by the
+canonical statements above). On response-derived data: the `v[index]` of `extractFromSlice` (bounds:
 `calcIndex_in_bounds`). The others index the argument lists of template functions after `switch len(args)` / within
 `range args`, configuration text (`segment[...]`: the first `[` stands before the final `]`; `ParseStringFunc`, `parseStr`)
 and `b[i]` / `letterRunes[Intn(len)]` within `range b` / a non-empty alphabet. -/
 theorem varsIndexings_eq : Gen.RespGuard.varsIndexings = [
-    "components/providers/scenario/templater/exec.go|ExecTemplateFuncWithVariables|a[i]",
-    "components/providers/scenario/templater/exec.go|ExecTemplateFuncWithVariables|a[i]",
-    "components/providers/scenario/templater/exec.go|ExecTemplateFuncWithVariables|args[i]",
-    "components/providers/scenario/templater/exec.go|ExecTemplateFuncWithVariables|args[i]",
-    "components/providers/scenario/templater/exec.go|ExecTemplateFunc|a[i]",
-    "components/providers/scenario/templater/exec.go|ExecTemplateFunc|args[i]",
-    "components/providers/scenario/templater/func.go|RandInt|args[0]",
-    "components/providers/scenario/templater/func.go|RandInt|args[0]",
-    "components/providers/scenario/templater/func.go|RandInt|args[1]",
-    "components/providers/scenario/templater/func.go|RandString|args[0]",
-    "components/providers/scenario/templater/func.go|RandString|args[0]",
-    "components/providers/scenario/templater/func.go|RandString|args[1]",
-    "components/providers/scenario/templater/func.go|parseStr|args[0]",
-    "components/providers/scenario/templater/func.go|parseStr|args[0]",
-    "components/providers/scenario/templater/func.go|parseStr|args[1:]",
-    "components/providers/scenario/templater/func.go|parseStr|args[i]",
-    "components/providers/scenario/templater/func.go|parseStr|args[i]",
-    "lib/mp/map.go|GetMapValue|segment[:openBraceIdx]",
-    "lib/mp/map.go|GetMapValue|segment[openBraceIdx+1 : len(segment)-1]",
-    "lib/mp/map.go|extractFromSlice|v[index]",
-    "lib/mp/map.go|extractFromSlice|v[index]",
-    "lib/mp/map.go|extractFromSlice|v[index]",
-    "lib/mp/map.go|extractFromSlice|v[index]",
-    "lib/mp/map.go|extractFromSlice|v[index]",
-    "lib/mp/map.go|extractFromSlice|v[index]",
-    "lib/mp/map.go|extractFromSlice|v[index]",
-    "lib/mp/map.go|extractFromSlice|v[index]",
-    "lib/str/string.go|ParseStringFunc|arg[:closeIdx]",
-    "lib/str/string.go|ParseStringFunc|args[i]",
-    "lib/str/string.go|ParseStringFunc|args[i]",
-    "lib/str/string.go|ParseStringFunc|shoot[:openIdx]",
-    "lib/str/string.go|ParseStringFunc|shoot[openIdx+1:]",
-    "lib/str/string.go|RandStringRunes|b[i]",
-    "lib/str/string.go|RandStringRunes|letterRunes[randSource.Intn(len(letterRunes))]"] := rfl
+    "components/providers/scenario/templater/exec.go|ExecTemplateFuncWithVariables|_[_]",
+    "components/providers/scenario/templater/exec.go|ExecTemplateFuncWithVariables|_[_]",
+    "components/providers/scenario/templater/exec.go|ExecTemplateFuncWithVariables|_[_]",
+    "components/providers/scenario/templater/exec.go|ExecTemplateFuncWithVariables|_[_]",
+    "components/providers/scenario/templater/exec.go|ExecTemplateFunc|_[_]",
+    "components/providers/scenario/templater/exec.go|ExecTemplateFunc|_[_]",
+    "components/providers/scenario/templater/func.go|RandInt|_[0]",
+    "components/providers/scenario/templater/func.go|RandInt|_[0]",
+    "components/providers/scenario/templater/func.go|RandInt|_[1]",
+    "components/providers/scenario/templater/func.go|RandString|_[0]",
+    "components/providers/scenario/templater/func.go|RandString|_[0]",
+    "components/providers/scenario/templater/func.go|RandString|_[1]",
+    "components/providers/scenario/templater/func.go|parseStr|_[0]",
+    "components/providers/scenario/templater/func.go|parseStr|_[0]",
+    "components/providers/scenario/templater/func.go|parseStr|_[1:]",
+    "components/providers/scenario/templater/func.go|parseStr|_[_]",
+    "components/providers/scenario/templater/func.go|parseStr|_[_]",
+    "lib/mp/map.go|GetMapValue|_[:_]",
+    "lib/mp/map.go|GetMapValue|_[_+1 : len(_)-1]",
+    "lib/mp/map.go|extractFromSlice|_[_]",
+    "lib/mp/map.go|extractFromSlice|_[_]",
+    "lib/mp/map.go|extractFromSlice|_[_]",
+    "lib/mp/map.go|extractFromSlice|_[_]",
+    "lib/mp/map.go|extractFromSlice|_[_]",
+    "lib/mp/map.go|extractFromSlice|_[_]",
+    "lib/mp/map.go|extractFromSlice|_[_]",
+    "lib/mp/map.go|extractFromSlice|_[_]",
+    "lib/str/string.go|ParseStringFunc|_[:_]",
+    "lib/str/string.go|ParseStringFunc|_[:_]",
+    "lib/str/string.go|ParseStringFunc|_[_+1:]",
+    "lib/str/string.go|ParseStringFunc|_[_]",
+    "lib/str/string.go|ParseStringFunc|_[_]",
+    "lib/str/string.go|RandStringRunes|_[_]",
+    "lib/str/string.go|RandStringRunes|_[randSource.Intn(len(_))]"] := rfl
 
 /-- `n.gs` is created by `NewNextIterator` -/
 theorem varsMapWritesWithoutMake_eq : Gen.RespGuard.varsMapWritesWithoutMake = [
-    "lib/mp/iterator.go|NextIterator.Next|n.gs[segment]"] := rfl
+    "lib/mp/iterator.go|NextIterator.Next|_.gs[_]"] := rfl
+
+/-- the scenario gun buffers the response body whenever the step has a postprocessor (and for answlog / debug logging):
+the reader every postprocessor is handed, and which the loop rewinds after each of them, is never nil (model `runPPs`:
+postprocessors read the body of the response). A condition that leaves it nil for some list of postprocessors breaks this
+lemma; another spelling of the same condition does not. -/
+theorem scenarioBodyBuffered_eq (answlog debug hasPostprocessors : Bool) :
+    Gen.RespGuard.scenarioBodyBuffered answlog debug hasPostprocessors = (answlog || debug || hasPostprocessors) := by
+  cases answlog <;> cases debug <;> cases hasPostprocessors <;> rfl
+
+theorem scenarioBodyBufferedUnknownAtoms_eq : Gen.RespGuard.scenarioBodyBufferedUnknownAtoms = [] := rfl
+
+/-- `ScenarioGun.prepareRequest`: the error of `http.NewRequest` is returned before the request is touched (a URL rendered
+from a response-derived variable may be unparsable: the step fails, `StepCfg.prepFails`) -/
+theorem scenarioPrepareRequest_eq : Gen.RespGuard.scenarioPrepareRequest = [
+    "const op = \"base_gun.prepareRequest\"",
+    "var v0 io.Reader",
+    "if v1.Body != nil { v0 = bytes.NewReader(v1.Body) }",
+    "v2, v3 := http.NewRequest(v1.Method, v1.URL, v0)",
+    "if v3 != nil { return nil, fmt.Errorf(\"…\", op, v3) }",
+    "for v4, v5 := range v1.Headers { v2.Header.Set(v4, v5) }",
+    "if v6.base.Config.SSL { v2.URL.Scheme = \"https\" } else { v2.URL.Scheme = \"http\" }",
+    "if v2.Host == \"\" { v2.Host = getHostWithoutPort(v6.base.Config.Target) }",
+    "v2.URL.Host = v6.base.Config.TargetResolved",
+    "return v2, v3"] := rfl
+
+/-- the preprocessor block of `shootStep` (model `scenarioStepsV`): the preprocessor's error is the step's error -/
+theorem scenarioPreBlock_eq : Gen.RespGuard.scenarioPreBlock = [
+    "if v0.Preprocessor != nil { v1, v2 := v0.Preprocessor.Process(v3) if v2 != nil { return fmt.Errorf(\"…\", op, v2) } v4[\"preprocessor\"] = v1 if v5.base.DebugLog { v5.base.GunDeps.Log.Debug(\"Preprocessor variables\", zap.Any(fmt.Sprintf(\".request.%s.preprocessor\", v0.Name), v1)) } }"] := rfl
 
 end Pandora.Bridge.C19
